@@ -502,6 +502,10 @@ func (c *Ctx) checkHeaderWhitelist(rule, typ string, f *ssa.Function, isH func(s
 				c.Check(rule, typ+":header-whitelist-not-bypassed", !bypass, t.pos, "the function cannot succeed without running the loop over the protected headers")
 			}
 		}
+		// (the test found here: a predicate helper it asks has been read as part of it, not as a whitelist of its own)
+		if found && wfn == g {
+			return
+		}
 		for _, b := range g.Blocks {
 			for _, in := range b.Instrs {
 				if cl, ok := in.(*ssa.Call); ok {
